@@ -145,6 +145,25 @@ class Collector:
                             stmt=stmt, definite=True)
         return self.unresolved(rule, construct, loc, what, "no statement of a recognised form found", stmt=stmt)
 
+    def text_group(self, rule, construct, d, items, fixed=(), body=None):
+        """items: [(what, accepted form(s), stmt key)].  All forms are matched against the statements
+        of `d` under one consistent renaming of local names (sa/match.find_group)."""
+        from . import match
+        stmts = body if body is not None else d.node.body
+        res = match.find_group(stmts, [it[1] for it in items], fixed)
+        out = []
+        for (what, _, key), (v, node, diffs) in zip(items, res):
+            loc = d.loc(node) if node is not None else d.loc()
+            if v == match.SAME:
+                out.append(self.ok(rule, construct, loc, what, norm_src(node)[:100], stmt=key))
+            elif v == match.LEAF:
+                out.append(self.add(rule, construct, loc, what, VIOLATION,
+                                    f"`{norm_src(node)[:120]}` differs from the form the definition requires: {match.describe(diffs)}",
+                                    stmt=key, definite=True))
+            else:
+                out.append(self.unresolved(rule, construct, loc, what, "no statement of a recognised form found", stmt=key))
+        return out
+
     def guard(self, fn, *args, **kw):
         """Run one part of a check; a vanished anchor inside it becomes an UNRESOLVED instance
         (exit 2 unless another part reports a definite violation) instead of aborting the run."""
